@@ -20,12 +20,12 @@ var _ = context.Background
 
 // exprCase is one expression-evaluation case (C06, C07, C12).
 type exprCase struct {
-	Expr   string            `json:"expr"`
-	Item   model.Item        `json:"item"`
-	Absent bool              `json:"absent,omitempty"` // C07: the item does not exist (Item holds the key attributes)
-	Names  map[string]string `json:"names,omitempty"`
+	Expr   string              `json:"expr"`
+	Item   model.Item          `json:"item"`
+	Absent bool                `json:"absent,omitempty"` // C07: the item does not exist (Item holds the key attributes)
+	Names  map[string]string   `json:"names,omitempty"`
 	Values map[string]model.AV `json:"values,omitempty"`
-	API    bool              `json:"api,omitempty"`
+	API    bool                `json:"api,omitempty"`
 }
 
 // richItem draws an item that contains (most of) the ten types, nested
@@ -362,10 +362,10 @@ func init() {
 // ---------------------------------------------------------------- C07
 
 type c07Info struct {
-	res     model.UpdateResult
-	actions int
-	nested  bool
-	guarded []string
+	res       model.UpdateResult
+	actions   int
+	nested    bool
+	guarded   []string
 	crossRead bool
 }
 
